@@ -231,3 +231,21 @@ def oracle_c05(s: Session2):
     # the other streams are unaffected: judged by oracle_c02 on them
     alive = [n for n in sess.alive() if n.startswith("app")]
     return fails
+
+
+def f9_witness():
+    """F9: once keep_alive_max_requests streams have been opened the HTTP/2 connection is closed at once and the responses of
+    streams still in progress (including the request that reached the limit) are dropped."""
+    sess = H2.H2Session([[("recv_all",), ("send", {"type": "http.response.start", "status": 200, "headers": []}),
+                          ("send", {"type": "http.response.body", "body": b"r", "more_body": False})]] * 4, max_requests=2)
+    for sid in (1, 3, 5):
+        try:
+            sess.request(sid)
+        except Exception:  # noqa: BLE001  (the client has been told to go away)
+            break
+    sess.pump()
+    answered = sorted(s for s in (1, 3, 5) if sess.ended.get(s))
+    goaway = [e for e in sess.events if e[0] == "goaway"]
+    if goaway and 5 not in answered and goaway[0][1] >= 5:
+        return f"GOAWAY(last_stream_id={goaway[0][1]}) but stream 5 was never answered (answered: {answered})"
+    return None
